@@ -1,7 +1,7 @@
 (* C09 — k-medoids refinement never worsens the cost and keeps centres in the data.
    cost = sum of squared frame-to-centre distances (the code compares means over the same n > 0). *)
 From Coq Require Import List ZArith QArith.
-From EV Require Import Cluster ClusterCase ClusterBase ClusterInv ClusterPam ClusterKC ClusterTop ClusterExample.
+From EV Require Import Cluster ClusterCase ClusterBase ClusterInv ClusterPam ClusterKC ClusterTop ClusterExample KcGuardBase ClusterGen ClusterSkel ClusterGenProofs.
 Import ListNotations.
 
 (* a proposal is accepted iff it strictly lowers the cost; a rejected proposal leaves the state
@@ -47,6 +47,12 @@ Theorem c09_medoid_proposal_no_gain : forall D cs cid p x, (cid < length cs)%nat
   dist x <= dist (pam_frame D cid p (replace_nth cid p cs) x).
 Proof. exact pam_frame_no_gain. Qed.
 Print Assumptions c09_medoid_proposal_no_gain.
+
+(* the accept test as regenerated from kmedoids.py: strictly lower cost, with distances, labels,
+   medoid coordinates and medoid index replaced together (the translator pins those statements) *)
+Theorem c09_source_accept_test_is_model : forall a b, gen_accept a b = Qlt_b a b.
+Proof. exact gen_accept_is_model. Qed.
+Print Assumptions c09_source_accept_test_is_model.
 
 Theorem c09_mean_lt_iff_sum_lt : forall (a b : Q) (n : positive),
   a / inject_Z (Z.pos n) < b / inject_Z (Z.pos n) <-> a < b.
